@@ -309,8 +309,10 @@ func (h *FHDR) UnmarshalBinary(uplink bool, data []byte) error {
 	h.FCnt = binary.LittleEndian.Uint32(fCntBytes)
 
 	if len(data) > 7 {
+		fOpts := make([]byte, len(data[7:]))
+		copy(fOpts, data[7:])
 		h.FOpts = []Payload{
-			&DataPayload{Bytes: data[7:]},
+			&DataPayload{Bytes: fOpts},
 		}
 	}
 
